@@ -80,6 +80,8 @@ type task struct {
 	cases    []selCase
 	hasDef   bool
 	selIdx   int
+	lastRun  int
+	created  int
 }
 
 // Outcome of one scheduled execution.
@@ -123,6 +125,10 @@ type Options struct {
 	KeyRunning  bool          // include the running task in the state key (needed when preemptions are bounded)
 	Watchdog    time.Duration // default 30s
 	NoPreemptAt func(kind string) bool
+	// RoundRobin changes the canonical order of the enabled tasks (and thereby the default schedule) from
+	// "the running task first, then by name" (which runs spawned tasks depth first) to "least recently run
+	// first": every task advances one operation in turn, which keeps as many tasks alive at once as possible.
+	RoundRobin bool
 }
 
 type Sched struct {
@@ -187,7 +193,7 @@ func (s *Sched) park(t *task) {
 }
 
 func (s *Sched) newTask(name string, fn func()) *task {
-	t := &task{name: name, wake: make(chan struct{}), kind: opStart, fn: fn}
+	t := &task{name: name, wake: make(chan struct{}), kind: opStart, fn: fn, created: len(s.tasks)}
 	s.tasks = append(s.tasks, t)
 	return t
 }
@@ -461,16 +467,25 @@ func Run(ctx *mc.Ctx, opt Options, main func()) Outcome {
 			}
 			break
 		}
-		sort.SliceStable(en, func(i, j int) bool {
-			if (en[i] == s.cur) != (en[j] == s.cur) {
-				return en[i] == s.cur
-			}
-			return en[i].name < en[j].name
-		})
+		if opt.RoundRobin {
+			sort.SliceStable(en, func(i, j int) bool {
+				if en[i].lastRun != en[j].lastRun {
+					return en[i].lastRun < en[j].lastRun
+				}
+				return en[i].created < en[j].created
+			})
+		} else {
+			sort.SliceStable(en, func(i, j int) bool {
+				if (en[i] == s.cur) != (en[j] == s.cur) {
+					return en[i] == s.cur
+				}
+				return en[i].name < en[j].name
+			})
+		}
 		i := 0
 		if len(en) > 1 {
 			var cost []int
-			if en[0] == s.cur {
+			if en[0] == s.cur && !opt.RoundRobin {
 				cost = make([]int, len(en))
 				for k := 1; k < len(en); k++ {
 					cost[k] = 1
@@ -485,6 +500,7 @@ func Run(ctx *mc.Ctx, opt Options, main func()) Outcome {
 		t := en[i]
 		s.cur = t
 		s.steps++
+		t.lastRun = s.steps
 		s.apply(t)
 		t.wake <- struct{}{}
 		if !timer.Stop() {
